@@ -3,5 +3,6 @@ EXTENDS ControlPlane
 E_conf_create == <<"conf", "create">>
 E_create_only == <<"create", "create", "create">>
 E_conf_only == <<"conf", "conf", "conf">>
+E_churn == <<"create", "conf", "conf", "conf", "conf", "conf">>
 E_burst == <<"create", "conf", "create", "conf">>
 =============================================================================
